@@ -17,7 +17,10 @@ import z3
 
 
 _PI = z3.Real("pi")
-PI_AXIOMS = [_PI > z3.RealVal("3.14159265358"), _PI < z3.RealVal("3.14159265359")]
+_LOG = z3.Function("log", z3.RealSort(), z3.RealSort())
+_EXP = z3.Function("exp", z3.RealSort(), z3.RealSort())
+PI_AXIOMS = [_PI > z3.RealVal("3.14159265358"), _PI < z3.RealVal("3.14159265359"),
+             _LOG(z3.RealVal(1)) == 0, _EXP(z3.RealVal(0)) == 1]
 
 
 PIN = []
@@ -794,9 +797,13 @@ def power(a, b):
                 return Sym(1 / r)
         if pb == 0.5:
             return sqrt_(a)
-    # general power: uninterpreted
-    e = uf("pow", a, b)
-    return Sym(e)
+    # general real power of a positive base: a**b = exp(b*log(a))  (the base is recorded; numpy gives nan for a
+    # negative base with a non-integer exponent)
+    from . import npmodel as _N
+    c = ctx()
+    if c is not None:
+        c.trace.append(("pow_base", z(a)))
+    return _N.exp_scalar(mul(b, _N.log_scalar(a)))
 
 
 def sqrt_(a):
